@@ -180,6 +180,22 @@ def run_reads(case):
             viol.append(V(f"c01:process-history:raises:{type(ex).__name__}", f"{cls.__name__} on a freshly built calculator-like object (this worker has evaluated and released others before): {ex!r}"))
             break
         for n, name in enumerate(case["ops"]):
+            if name.startswith("fail-"):
+                # a read that FAILS because an input is not usable yet (wrong-length static pressure / heat capacity), the
+                # input is then repaired: the object must afterwards behave like a fresh one (the retry of a notebook cell)
+                what, read = name.split(":")
+                vb = duck.qha_calculator.volume_base
+                saved = (duck.static_p_array, vb.heat_capacity)
+                if what == "fail-static":
+                    duck.static_p_array = numpy.zeros(len(v) + 3)
+                else:
+                    vb.heat_capacity = numpy.zeros((len(t) + 2, len(v) + 1))
+                try:
+                    getattr(obj, read)
+                except Exception:
+                    pass
+                duck.static_p_array, vb.heat_capacity = saved
+                continue
             try:
                 got = numpy.array(getattr(obj, name), float)
             except Exception as ex:
@@ -244,8 +260,10 @@ def explore(ctx):
     import itertools
     seqs = [list(p) for L in (1, 2, 3) for p in itertools.permutations(READS, L)] + ([list(p) for p in itertools.permutations(READS, 5)] if not ctx.quick else
                                                                                       [READS[::-1], READS[2:] + READS[:2], ["value_adiabatic", "thermal_contribution", "zero_point_contribution", "value_isothermal"]])
+    fails = ["fail-static:value_isothermal", "fail-static:value_adiabatic", "fail-cv:value_adiabatic", "fail-cv:isothermal_to_adiabatic"]
+    seqs += [[f, r] for f in fails for r in READS] + [[r0, f, r] for f in fails for r0 in READS[:3] for r in READS[2:]]
     ctx.run(MOD, "run_reads", [{"spec": k, "ops": sq} for k in range(len(HIST_SPECS)) for sq in seqs], part="read-histories",
-            transitions=sum(len(sq) for sq in seqs) * len(HIST_SPECS))
+            transitions=sum(len(sq) for sq in seqs) * len(HIST_SPECS))   # incl. reads that fail on a not-yet-usable input and are retried
     orders = [list(p) for L in (2, 3) for p in itertools.permutations(range(len(HIST_SPECS)), L)] + [[0, 0], [1, 1, 1], [0, 1, 0], [2, 0, 2]]
     ctx.run(MOD, "run_sequence", [{"order": o} for o in orders], part="object-sequences", chunksize=1, transitions=sum(len(o) for o in orders))
     ratios = [r["zp_ratio"] for r in results if r.get("zp_ratio")]
